@@ -60,7 +60,15 @@ pub fn range_tokens(r: &mut Rng, nkeys: usize, max_span_chunks: u32) -> (String,
             let lo = if start < hi { start } else { hi - 1 };
             (format!("in:{}", hi), format!("in:{}", lo))
         }
-        2 => (format!("ex:{}", start), format!("ex:{}", start)), // equal excluded
+        2 => {
+            if r.chance(1, 2) {
+                (format!("ex:{}", start), format!("ex:{}", start)) // equal excluded
+            } else {
+                // the open interval between two adjacent integers is empty too; often across a chunk edge
+                let s = if r.chance(1, 2) { start | 0xFFFF } else { start };
+                (format!("ex:{}", s), format!("ex:{}", (s + 1).min(u32::MAX as u64)))
+            }
+        }
         3 => ("un".to_string(), format!("in:{}", (len - 1).min(3 * 65536))), // unbounded start (small end)
         4 => (format!("ex:{}", u32::MAX), "un".to_string()),     // Excluded(MAX)..
         5 => ("un".to_string(), "ex:0".to_string()),              // ..0
